@@ -55,12 +55,29 @@ def run(ctx):
     file = fn.module.rel
     s = summarize(prog, fn)
     args_p = fn.params[0]
-    loops = [n for n in ast.walk(fn.node) if isinstance(n, ast.For) and n in s.loops]
-    sl = None
-    for l in loops:
+    from ..helpers import with_helpers, unknown_callee
+    # the function that parses the settings: _control itself, or a helper the rules do not know that _control hands args.settings to
+    pf, ps, sl, pcall = fn, s, None, None
+    for l in [n for n in ast.walk(fn.node) if isinstance(n, ast.For) and n in s.loops]:
         it = s.ta.terms_at.get(l.iter)
         if it is not None and any(x == ("attr", ("param", args_p), "settings") for x in subterms(it)):
             sl = l
+    if sl is None:
+        for c in [n for n in ast.walk(fn.node) if isinstance(n, ast.Call)]:
+            f2 = unknown_callee(prog, fn, c)
+            tc = s.ta.terms_at.get(c)
+            if f2 is None or f2.is_async:
+                continue
+            passed = [p_.arg for p_, a_ in zip(f2.node.args.args, c.args) if s.ta.terms_at.get(a_) is not None
+                      and strip(s.ta.terms_at[a_]) in (("attr", ("param", args_p), "settings"), ("param", args_p))]
+            if not passed:
+                continue
+            s2 = summarize(prog, f2)
+            for l in [n for n in ast.walk(f2.node) if isinstance(n, ast.For) and n in s2.loops]:
+                it = s2.ta.terms_at.get(l.iter)
+                if it is not None and any(x in [("param", p_) for p_ in passed] or (x[0] == "attr" and x[1] in [("param", p_) for p_ in passed] and x[2] == "settings")
+                                          for x in subterms(it)):
+                    pf, ps, sl, pcall = f2, s2, l, c
     if sl is None:
         raise AnalysisError(f"{fn.qual}: the loop over args.settings was not found")
     ctx.count("settings_loops")
@@ -73,13 +90,25 @@ def run(ctx):
         return []
     ea = EventAnalysis(must=False, on_stmt=on_stmt)
     run_events(prog, fn, ea)
-    ctx.ob("C20.a", fn.qual, "io" not in ea.at.get(sl, frozenset()), "the settings-parsing loop starts before any call that can reach the network", func=fn.qual, file=file,
+    if pf is fn:
+        before_io = "io" not in ea.at.get(sl, frozenset())
+    else:
+        # the parsing helper is called before any network call, and makes none itself
+        par0 = {}
+        for n in ast.walk(fn.node):
+            for c in ast.iter_child_nodes(n):
+                par0[c] = n
+        st0 = pcall
+        while st0 in par0 and st0 not in ea.at:
+            st0 = par0[st0]
+        before_io = st0 in ea.at and "io" not in ea.at[st0] and not any(isinstance(n, ast.Call) and is_io_call(n) for n in ast.walk(pf.node))
+    ctx.ob("C20.a", fn.qual, before_io, "the settings-parsing loop starts before any call that can reach the network", func=fn.qual, file=file,
            construct="settings loop position", fail="a network call (_connect / refresh / ...) can happen before the settings are parsed and validated")
     inner_io = [n for st in sl.body for n in ast.walk(st) if isinstance(n, ast.Call) and is_io_call(n)]
     ctx.ob("C20.a", fn.qual, not inner_io, "no network call inside the parsing loop", func=fn.qual, file=file, node=inner_io[0] if inner_io else None,
            fail="the parsing loop itself talks to the device: a later invalid setting is rejected after something was sent")
     # the pending set: the local that the parsing loop extends by key stores (whatever it is called)
-    info = s.loops[sl]
+    info = ps.loops[sl]
     PEND = None
     for st in info["ends"] + info["continues"]:
         for k, v in st.env.items():
@@ -87,13 +116,25 @@ def run(ctx):
                 PEND = k
     if PEND is None:
         raise AnalysisError(f"{fn.qual}: the parsing loop records its results in no local mapping")
-    stores = [n for n in ast.walk(fn.node) if isinstance(n, ast.Subscript) and isinstance(n.ctx, ast.Store) and isinstance(n.value, ast.Name) and n.value.id == PEND]
-    stores += [n for n in ast.walk(fn.node) if isinstance(n, ast.Call) and isinstance(n.func, ast.Attribute) and isinstance(n.func.value, ast.Name) and n.func.value.id == PEND
-               and n.func.attr in ("update", "setdefault", "__setitem__")]
+    # (when a helper parses, _control holds its result under a name of its own)
+    pend_names = {(pf, PEND)}
+    if pf is not fn:
+        rets_pf = {strip(t) for _pc, t, n, _ in ps.returns if n is not None}
+        if not (len(rets_pf) == 1 and all(x[0] in ("loopvar", "mut") and any(y[0] == "loopvar" and y[1] == PEND for y in subterms(x)) for x in rets_pf)):
+            raise AnalysisError(f"{pf.qual}: the parsing helper does not return the mapping it fills")
+        for a_ in ast.walk(fn.node):
+            if isinstance(a_, ast.Assign) and a_.value is pcall and len(a_.targets) == 1 and isinstance(a_.targets[0], ast.Name):
+                pend_names.add((fn, a_.targets[0].id))
+        if len(pend_names) != 2:
+            raise AnalysisError(f"{fn.qual}: the result of the parsing helper is not kept in a local")
+    stores = []
+    for f_, nm_ in pend_names:
+        stores += [n for n in ast.walk(f_.node) if isinstance(n, ast.Subscript) and isinstance(n.ctx, ast.Store) and isinstance(n.value, ast.Name) and n.value.id == nm_]
+        stores += [n for n in ast.walk(f_.node) if isinstance(n, ast.Call) and isinstance(n.func, ast.Attribute) and isinstance(n.func.value, ast.Name) and n.func.value.id == nm_
+                   and n.func.attr in ("update", "setdefault", "__setitem__")]
     outside = [n for n in stores if not any(n is x for st in sl.body for x in ast.walk(st))]
     ctx.ob("C20.a", fn.qual, not outside and bool(stores), "every pending setting is recorded inside the parsing loop (validated before I/O)", func=fn.qual, file=file,
            construct="new_properties stores", fail="settings are added to the pending set outside the validated parsing loop")
-    from ..helpers import with_helpers
     exit_fns = {}
     for q0 in (f"{CLI}._control", f"{CLI}._connect", f"{CLI}._query"):
         for f2 in with_helpers(prog, ctx.fn(q0)):        # ... and the helpers they call that the rules do not know
@@ -131,25 +172,25 @@ def run(ctx):
         NAME = leaf[2]
     # the default value the conversion type is taken from: getattr(<fresh AirConditioner>, name); path facts at its statement
     par = {}
-    for n in ast.walk(fn.node):
+    for n in ast.walk(pf.node):
         for c in ast.iter_child_nodes(n):
             par[c] = n
     conv_stmt = conv_call = None
     for n in ast.walk(sl):
-        if isinstance(n, ast.Call) and n in s.ta.terms_at:
-            t = s.ta.terms_at[n]
+        if isinstance(n, ast.Call) and n in ps.ta.terms_at:
+            t = ps.ta.terms_at[n]
             if call_is(t, "getattr") and len(t[2]) >= 2 and call_is(strip(t[2][0]), AC):
                 st_n = n
-                while st_n in par and st_n not in s.ta.env_at:
+                while st_n in par and st_n not in ps.ta.env_at:
                     st_n = par[st_n]
-                if st_n in s.ta.env_at:
+                if st_n in ps.ta.env_at:
                     conv_stmt, conv_call = st_n, n
-    DEFAULT = s.ta.terms_at[conv_call] if conv_call is not None else None
+    DEFAULT = ps.ta.terms_at[conv_call] if conv_call is not None else None
     TYPE = ("call", ("ext", "type"), (DEFAULT,), ()) if DEFAULT is not None else None
     if conv_stmt is None:
         ctx.violation("C20.b", fn.qual, "the conversion type is not taken from a fresh AirConditioner instance's attribute", file=file, construct="attr_value")
     else:
-        facts = atoms(s.ta.env_at[conv_stmt].pc)
+        facts = atoms(ps.ta.env_at[conv_stmt].pc)
         tv = DEFAULT
         fresh = call_is(tv, "getattr") and call_is(strip(tv[2][0]), AC) and strip(tv[2][1]) == strip(NAME)
         ctx.ob("C20.b", fn.qual, fresh, "conversion type = type(getattr(<fresh AirConditioner>, name))", func=fn.qual, file=file, node=conv_stmt,
@@ -162,7 +203,7 @@ def run(ctx):
                detail={"facts": [show(f)[:100] for f in facts]}, fail="unknown setting names are not rejected before conversion")
         # writable: NOT(name != KEY and fset is None)  <=>  name == KEY or fset is not None
         wr = False
-        for c, truth in s.ta.env_at[conv_stmt].pc:
+        for c, truth in ps.ta.env_at[conv_stmt].pc:
             if not truth and c[0] == "bool" and c[1] == "and" and len(c[2]) == 2:
                 a, b = c[2]
                 has_key = any(x[0] == "cmp" and x[1] == "!=" and strip(x[2]) == strip(NAME) and x[3] == ("const", "display_on") for x in (a, b))
